@@ -6,6 +6,7 @@ package flamego
 
 import (
 	"bufio"
+	"fmt"
 	"net"
 	"net/http"
 	"sync"
@@ -66,6 +67,13 @@ func (w *responseWriter) callBefore() {
 }
 
 func (w *responseWriter) WriteHeader(s int) {
+	// The underlying writer panics on an invalid status code. Refuse it before the
+	// guards below are used up, so that a valid status can still be sent afterwards,
+	// e.g. the 500 of the Recovery middleware.
+	if s < 100 || s > 999 {
+		panic(fmt.Sprintf("invalid WriteHeader code %v", s))
+	}
+
 	// The functions run once and on their own: when one of them panics, the status
 	// has not been sent and can still be sent, e.g. by the Recovery middleware.
 	w.beforeOnce.Do(w.callBefore)
